@@ -275,6 +275,56 @@ theorem rlevel_bounded (c : Cfg) (ins : List In) : (run c (State.init c) ins).rL
   | nil => intro s h; simpa [run] using h
   | cons i is ih => intro s h; exact ih _ (rlevel_step c s i h)
 
+/-- entries held by a buffered SyncFIFO change by accepted pushes minus dequeues -/
+theorem count_step_buffered (cfg : Fifo.Cfg) (hd : 2 ≤ cfg.depth) (hb : cfg.buffered = true) (s : Fifo.State WBeat)
+    (sv : Bool) (sd : WBeat) (sr : Bool) :
+    Fifo.count (Fifo.step cfg s sv sd sr) + (if Fifo.srcValid cfg s sv && sr then 1 else 0) =
+      Fifo.count s + (if sv && Fifo.sinkReady cfg s sr then 1 else 0) := by
+  have h0 : (cfg.depth == 0) = false := by simp; omega
+  have h1 : (cfg.depth == 1) = false := by simp; omega
+  have h2 : decide (cfg.depth ≥ 2) = true := by simpa using hd
+  simp only [Fifo.step, Fifo.count, Fifo.srcValid, Fifo.sinkReady, h0, h1, h2, hb, Bool.false_eq_true, if_false,
+    Bool.and_true, Bool.not_true, if_true]
+  cases hq : s.q with
+  | nil =>
+    have hne0 : ¬ (0 = cfg.depth) := by omega
+    cases ho : s.out <;> cases sv <;> cases sr <;> simp [hq, ho, hne0]
+  | cons a t =>
+    by_cases hfull : t.length + 1 = cfg.depth <;>
+      cases ho : s.out <;> cases sv <;> cases sr <;> simp [hq, ho, hfull] <;> omega
+
+/-- the write-side facts of one cycle, without read-modify-write -/
+theorem wlevel_step (c : Cfg) (s : State) (i : In) (hn : c.rmw = false) (hd : 2 ≤ c.wDepth)
+    (h : s.wLevel ≤ Fifo.count s.wBuf) : (step c s i).1.wLevel ≤ Fifo.count (step c s i).1.wBuf := by
+  have hc := count_step_buffered (wCfg c) hd rfl s.wBuf i.wValid i.w
+  -- name the three strobes of the cycle
+  have key : ∃ (wq : Bool) (sr : Bool),
+      (wq = true → s.wLevel < Fifo.count s.wBuf) ∧
+      (step c s i).1.wBuf = Fifo.step (wCfg c) s.wBuf i.wValid i.w sr ∧
+      (step c s i).1.wLevel = (if wq then (if !(Fifo.srcValid (wCfg c) s.wBuf i.wValid && sr) then s.wLevel + 1 else s.wLevel)
+                               else if (Fifo.srcValid (wCfg c) s.wBuf i.wValid && sr) then s.wLevel - 1 else s.wLevel) ∧
+      (sr = true → (s.wLevel != 0 || wq) = true) := by
+    simp only [step, hn]
+    refine ⟨_, _, ?_, rfl, rfl, ?_⟩
+    · simp; grind
+    · simp
+  obtain ⟨wq, sr, h1, h2, h3, h4⟩ := key
+  have hcs := hc sr
+  rw [h2, h3]
+  cases wq <;> cases hdq : (Fifo.srcValid (wCfg c) s.wBuf i.wValid && sr) <;> simp [hdq] at hcs h1 h4 ⊢ <;>
+    (split at hcs <;> omega)
+
+/-- **Commands never run ahead of the data they need** (regular datapath): from reset, for every traffic and timing,
+the number of write commands issued whose data beat has not left yet never exceeds the beats held in the write
+buffer - so every `wdata.ready` strobe of the controller finds its beat. -/
+theorem wlevel_bounded (c : Cfg) (hn : c.rmw = false) (hd : 2 ≤ c.wDepth) (ins : List In) :
+    (run c (State.init c) ins).wLevel ≤ Fifo.count (run c (State.init c) ins).wBuf := by
+  suffices ∀ s : State, s.wLevel ≤ Fifo.count s.wBuf → (run c s ins).wLevel ≤ Fifo.count (run c s ins).wBuf from
+    this _ (by simp [State.init, Fifo.count])
+  induction ins with
+  | nil => intro s h; simpa [run] using h
+  | cons i is ih => intro s h; exact ih _ (wlevel_step c s i hn hd h)
+
 /-- the two paths never issue a command in the same cycle; a command on the port comes from the granted path or from
 the RMW FSM, and its direction says which -/
 theorem command_source (c : Cfg) (s : State) (i : In) (hn : c.rmw = false) (hv : (step c s i).2.cmdValid = true) :
